@@ -44,6 +44,11 @@ func buildCorpus(g *model.Gen, perKind int) []corpusItem {
 					a.Canon, a.Profile = extprof.ExtP1Name, model.SP(extprof.ExtP1Name)
 				}
 			}
+			if p == 1 && i%6 == 2 {
+				// the "no software measurements" form of profile 1
+				one := uint64(1)
+				a.NoMeas, a.HasComps, a.Comps = &one, false, nil
+			}
 			wire := refcbor.Encode(a.WireCBOR())
 			out = append(out, corpusItem{"cbor", fmt.Sprintf("claims-P%d", p), wire})
 			out = append(out, corpusItem{"json", fmt.Sprintf("claims-P%d", p), a.WireJSON()})
@@ -175,7 +180,7 @@ func (h *hostileRunner) run(family, class string, input []byte) {
 }
 
 func runC05(c *mon.Ctx) {
-	c.Rule("inputs: (A) structure-aware mutants of valid CBOR claims (P1, P2, both extension profiles), component lists, COSE envelopes (also mutated inside the payload and inside the protected header) and serialisations of 7 codec shapes: at a random node of the independent AST replace by null / undefined / empty and boundary values of every type / tag- / array- / bstr-wrap, delete, duplicate (same key twice), swap, then re-encode with random non-minimal and indefinite lengths; (B) the same on JSON documents (member := null / \"\" / [] / {} / numbers beyond 64 bit / wrong type, delete, duplicate incl. case variants, rename, swap); (C) byte level: every possible header byte followed by 0..9 argument bytes (bare, behind tags, as a map value); truncation at every offset of items re-encoded with all arguments forced to 1/2/4/8 bytes; truncation at every offset, all 256 substitutions at every offset of sample items, random splices of two items, insertions, deletions, lone header bytes of every major type at the end of input, random strings; each input goes to every decoding entry point of its family (COSE evidence x3, dispatching CBOR/JSON decoders validating and not, deprecated aliases, P1/P2/extension/container unmarshal methods, encoding.PopulateStructFromCBOR/JSON on flat / embedded / interface-embedded shapes) under recover(); whatever is returned without error is validated, read through every getter and component getter, re-encoded (CBOR, JSON, validating and not), attached, verified against 8 keys/non-keys. One child process per shard with a write-ahead log; the supervisor attributes process deaths (fatal errors) to the in-flight input and resumes after it. Oracle: no panic, no process death. distinct_nontrivial = distinct (family, kind, mutation classes) signatures")
+	c.Rule("inputs: (A) structure-aware mutants of valid CBOR claims (P1, P2, both extension profiles), component lists, COSE envelopes (also mutated inside the payload and inside the protected header) and serialisations of 7 codec shapes: at a random node of the independent AST replace by null / undefined / empty and boundary values of every type / tag- / array- / bstr-wrap, delete, duplicate (same key twice), swap, then re-encode with random non-minimal and indefinite lengths; (B) the same on JSON documents (member := null / \"\" / [] / {} / numbers beyond 64 bit / wrong type, delete, duplicate incl. case variants, rename, swap); (A0) every claims item of the corpus (incl. the P1 no-software-measurements form) x every claim name / key of either profile, present or not := each special value (null, undefined, [], {}, empty string, 0, [null], ...); (C) byte level: every possible header byte followed by 0..9 argument bytes (bare, behind tags, as a map value); truncation at every offset of items re-encoded with all arguments forced to 1/2/4/8 bytes; truncation at every offset, all 256 substitutions at every offset of sample items, random splices of two items, insertions, deletions, lone header bytes of every major type at the end of input, random strings; each input goes to every decoding entry point of its family (COSE evidence x3, dispatching CBOR/JSON decoders validating and not, deprecated aliases, P1/P2/extension/container unmarshal methods (destinations made by the constructors and struct-literal destinations without component container), encoding.PopulateStructFromCBOR/JSON on flat / embedded / interface-embedded shapes) under recover(); whatever is returned without error is validated, read through every getter and component getter, re-encoded (CBOR, JSON, validating and not), attached, verified against 8 keys/non-keys. One child process per shard with a write-ahead log; the supervisor attributes process deaths (fatal errors) to the in-flight input and resumes after it. Oracle: no panic, no process death. distinct_nontrivial = distinct (family, kind, mutation classes) signatures")
 	if err := extprof.Register(extprof.ExtP2Name, extprof.ExtP1Name); err != nil {
 		c.Violation("harness/register", err.Error(), nil)
 		return
@@ -273,6 +278,72 @@ func runC05(c *mon.Ctx) {
 	}
 	c.Sig("hand-made")
 
+	// (A0) systematically: every claims item of the corpus x every claim name /
+	// key of either profile (present or not) := each special value
+	{
+		jsonNames := []string{"psa-profile", "eat-profile", "psa-client-id", "psa-security-lifecycle", "psa-implementation-id", "psa-boot-seed", "psa-certification-reference", "psa-software-components", "psa-no-software-measurements", "psa-no-sw-measurement", "psa-nonce", "psa-instance-id", "psa-verification-service-indicator", "timestamp", "x-extra"}
+		cborKeys := []int64{10, 256, 265, 2394, 2395, 2396, 2397, 2398, 2399, 2400, -75000, -75001, -75002, -75003, -75004, -75005, -75006, -75007, -75008, -75009, -75010, -75100, -75200}
+		cborSpecials := func() []*refcbor.Node {
+			return []*refcbor.Node{refcbor.Null(), refcbor.Undef(), refcbor.Arr(), refcbor.MapOf(), refcbor.Bstr(nil), refcbor.Tstr(""), refcbor.U(0), refcbor.U(1), refcbor.Arr(refcbor.Null()), refcbor.Arr(refcbor.MapOf()), refcbor.Tagged(1, refcbor.Null())}
+		}
+		idx := 0
+		for _, it := range corpus {
+			if !strings.HasPrefix(it.kind, "claims-") {
+				continue
+			}
+			idx++
+			if !c.Mine(idx) {
+				continue
+			}
+			switch it.family {
+			case "json":
+				for _, name := range jsonNames {
+					for _, sp := range jsonSpecials {
+						root, err := parseJSON(it.bytes)
+						if err != nil || root.kind != 'o' {
+							continue
+						}
+						val, perr := parseJSON([]byte(sp))
+						if perr != nil {
+							continue
+						}
+						found := false
+						for i, n := range root.names {
+							if n == name {
+								root.members[i], found = val, true
+							}
+						}
+						if !found {
+							root.names, root.members = append(root.names, name), append(root.members, val)
+						}
+						h.run("json", "claim:=special:"+it.kind, root.bytes())
+					}
+				}
+				c.Sig("json|claim:=special|" + it.kind)
+			case "cbor":
+				for _, key := range cborKeys {
+					for si := range cborSpecials() {
+						root, _, err := refcbor.Decode(it.bytes)
+						if err != nil || root.K != refcbor.Map {
+							continue
+						}
+						val := cborSpecials()[si]
+						found := false
+						for i := 0; i+1 < len(root.Items); i += 2 {
+							if kv, ok := root.Items[i].Int64(); ok && kv == key {
+								root.Items[i+1], found = val, true
+							}
+						}
+						if !found {
+							root.Items = append(root.Items, refcbor.I(key), val)
+						}
+						h.run("cbor", "claim:=special:"+it.kind, refcbor.Encode(root))
+					}
+				}
+				c.Sig("cbor|claim:=special|" + it.kind)
+			}
+		}
+	}
 	// (A) AST mutants, CBOR family
 	nA := c.N(120000, 4000000)
 	for i := 0; i < nA; i++ {
